@@ -26,6 +26,9 @@ type zzStream struct {
 	out    []byte
 	reset  bool
 	closed bool
+	// a peer may stop reading at any time: only a write deadline bounds a Write then
+	wdl             time.Time
+	unboundedWrites int
 }
 
 func (s *zzStream) Read(p []byte) (int, error) {
@@ -36,16 +39,22 @@ func (s *zzStream) Read(p []byte) (int, error) {
 	s.pos += n
 	return n, nil
 }
-func (s *zzStream) Write(p []byte) (int, error) { s.out = append(s.out, p...); return len(p), nil }
+func (s *zzStream) Write(p []byte) (int, error) {
+	if s.wdl.IsZero() || !s.wdl.After(time.Now()) {
+		s.unboundedWrites++
+	}
+	s.out = append(s.out, p...)
+	return len(p), nil
+}
 func (s *zzStream) CloseRead() error            { return nil }
 func (s *zzStream) CloseWrite() error           { return nil }
 func (s *zzStream) Close() error                { s.closed = true; return nil }
 func (s *zzStream) Reset() error                { s.reset = true; return nil }
 
-// deadlines are environment: accepted and ignored
-func (s *zzStream) SetReadDeadline(time.Time) error  { return nil }
-func (s *zzStream) SetWriteDeadline(time.Time) error { return nil }
-func (s *zzStream) SetDeadline(time.Time) error      { return nil }
+// deadlines: the read deadline is environment (the whole request is there at once); the write deadline is recorded
+func (s *zzStream) SetReadDeadline(time.Time) error    { return nil }
+func (s *zzStream) SetWriteDeadline(t time.Time) error { s.wdl = t; return nil }
+func (s *zzStream) SetDeadline(t time.Time) error      { s.wdl = t; return nil }
 
 // zzWireStore: the canonical chain tail..head with logging of the reads.
 type zzWireStore struct {
@@ -152,6 +161,7 @@ func ZzC10Wire() {
 	zz.Observe("responses", uint64(len(resps)))
 	zz.ObserveBool("reset", stream.reset)
 	zz.Assert(st.noDeadline == 0, "every store access of a request runs under the request timeout")
+	zz.Assert(stream.unboundedWrites == 0, "every write of a response is bounded by a write deadline (a peer that stops reading must not pin the handler)")
 	zz.Assert(len(st.rangeCalls) <= 1, "at most one range read per request")
 	for _, c := range st.rangeCalls {
 		zz.Assert(c[1]-c[0] <= header.MaxRangeRequestSize && c[1] > c[0], "never more than MaxRangeRequestSize headers are read")
